@@ -804,7 +804,7 @@ class Executor:
         elif isinstance(it, ZipIter):
             zi = it
             single = False
-        elif isinstance(it, EnumIter):
+        elif isinstance(it, EnumIter) or getattr(it, "pyvc_iter", False):
             zi = it
             single = False
         else:
@@ -878,6 +878,11 @@ class Executor:
                     st.assume(ln >= 0)
                     outs.append(SSeq.from_array(ln, arr, kind=x.kind, name=f"{nm}{j_}"))
                 st.vars[nm] = type(old)(outs)
+            elif isinstance(old, dict):
+                # a dict filled by the loop: content unknown afterwards; stores go through the contract's store protocol (if any)
+                from .prims import GhostDict
+
+                st.vars[nm] = GhostDict(nm)
             elif type(old).__name__ in ("Opaque", "Record") or hasattr(old, "pyvc_havoc"):
                 st.vars[nm] = old.pyvc_havoc() if hasattr(old, "pyvc_havoc") else old  # untracked objects stay untracked
             elif old is None and nm not in st.vars:
